@@ -76,6 +76,9 @@ def _parse_ruby_link(
                         "type": "link",
                         "children": tokens,
                         "attrs": attrs,
+                        # like a reference link of the core parser
+                        "ref": key,
+                        "label": label,
                     }
                 )
             else:
